@@ -189,6 +189,15 @@ def families(seed, tier):
                      op("settle", quiet=300, ms=3000)] +
                     ([open_(o), await_(o, "answered", p=d, ms=4000), op("pump", ms=200), close_(o), close_(d), op("settle", quiet=300, ms=3000)] if mirror else []) +
                     [open_(d), await_(d, "answered", p=o, ms=4000), await_(d, "open", p=o, ms=1500), send(d, "s", 1, "min"), op("pump", ms=200)])
+    # an outbound substream fails to open while the connection stays up (one direction of the link is stalled, so the
+    # opener's multistream negotiation times out; the peers have different substream open timeouts):
+    # X opens (OutboundInitiated), Y opens too; Y's attempt times out first, X's read of its handshake fails ->
+    # Closed{pending_open: Some(id)}; then X's own id fails; the link recovers; X opens again: must be answered.
+    for i in range(2 if tier == "quick" else 6):
+        add("outbound-fails-after-inbound-died", dict(cfg(0, perturb=i % 3), sot_x=4000, sot_y=1500),
+            [policy("X", "accept"), policy("Y", "accept"), op("freeze", dir="fwd", on=True), open_("X"), op("pump", ms=100 + 50 * i), open_("Y"),
+             await_("Y", "answered", ms=5000), await_("X", "answered", ms=5000), op("pump", ms=3300), op("freeze", dir="fwd", on=False),
+             op("settle", quiet=300, ms=3000), open_("X"), await_("X", "answered", ms=4000), await_("X", "open", ms=2000), op("pump", ms=200)])
     # dialing on demand / dialing disabled
         add("dial-on-open", cfg(0, dial=True, perturb=1), [policy("X", "accept"), policy("Y", "accept"), op("cut"), await_("X", "down"), await_("Y", "down"),
                                                            open_("X"), await_("X", "open", ms=10000)])
@@ -353,7 +362,7 @@ def script_from_behaviour(b, idx, seed, consts, paced):
 # ----------------------------------------------------------------------------- model checking
 
 TAGS = {"stale-shutdown-notice", "panic-after-stale-shutdown-notice", "report-overtakes-closed", "stale-validation-result",
-        "ignored-open-never-answered"}
+        "ignored-open-never-answered", "failed-open-id-kept-pending"}
 MC_LINES = ["SPECIFICATION Spec", "INVARIANTS MonOK NoUnknownPanic QuiesceOK", "CHECK_DEADLOCK FALSE"]
 
 
@@ -632,7 +641,7 @@ def save_known_repros(ctx, violations):
 
 TRANSPORTS = ("tcp", "ws", "quic")
 # families that need a byte-stream proxy (stalling a link without losing bytes): not run over QUIC
-NOT_ON_QUIC = ("sfam-frozen-transport",)
+NOT_ON_QUIC = ("sfam-frozen-transport", "fam-outbound-fails-after")
 
 
 def family_of(script):
